@@ -235,13 +235,14 @@ type C12UsageCase struct {
 // ---------------------------------------------------------------------------------------------
 
 var (
-	c12PhV4 = []string{"192.122.190.0/24", "141.219.0.0/16", "35.8.0.0/16", "203.0.113.64/26", "198.18.0.0/15"}
+	// the /30 makes boundary addresses of small exclusions (first / last address, /31, /32) likely
+	c12PhV4 = []string{"192.122.190.0/24", "141.219.0.0/16", "35.8.0.0/16", "203.0.113.64/26", "198.18.0.0/15", "203.0.113.200/30", "203.0.113.200/30"}
 	c12PhV6 = []string{"2001:48a8:687f:1::/64", "2002:c000:204::/48", "2620:10:2000::/52"}
 	// override subnets: mutually disjoint (so a substituted address identifies the subnet that was
 	// chosen); the last two are special: one overlaps a phantom subnet, one is IPv6.
 	c12OvDisjoint = []string{"10.1.0.0/16", "10.2.0.0/24", "10.3.3.0/28", "172.16.0.0/12", "100.64.0.0/10", "10.4.4.4/32", "10.5.0.0/31", "255.255.255.0/24", "10.6.0.0/20", "10.7.7.0/24", "192.168.0.0/16", "10.8.0.0/30"}
 	c12OvSpecial  = []string{"192.122.190.128/25", "fd00:12::/64"}
-	c12ExPool     = []string{"192.122.190.0/24", "192.122.190.0/25", "141.219.0.0/17", "35.8.0.0/16", "203.0.113.64/27", "198.18.0.0/16", "8.8.8.0/24", "2001:48a8:687f:1::/64", "0.0.0.0/1"}
+	c12ExPool     = []string{"192.122.190.0/24", "192.122.190.0/25", "141.219.0.0/17", "35.8.0.0/16", "203.0.113.64/27", "198.18.0.0/16", "8.8.8.0/24", "2001:48a8:687f:1::/64", "0.0.0.0/1", "203.0.113.200/30", "203.0.113.200/30", "203.0.113.202/31", "203.0.113.200/31", "203.0.113.201/32", "203.0.113.203/32", "203.0.113.200/32"}
 	c12Gens       = []uint32{1, 957, 1164}
 	// forged values lie outside every pool above and are no port any transport or configuration
 	// generated here can produce (ports < 1024 other than 22/53/80/443 are never legitimate).
